@@ -476,6 +476,25 @@ Proof.
       * rewrite last_write_zip_notin; [reflexivity|]. rewrite points_in_fits by assumption. congruence.
 Qed.
 
+(* for a draw_iter-only target the stores ARE the semantics: no range hypothesis *)
+Lemma paint_writes_default bb c m p :
+  paint bb DefaultOnly c m p =
+  match last_write p (writes bb DefaultOnly c) with Some col => Some col | None => m p end.
+Proof.
+  destruct c; cbn [paint writes]; unfold default_clear, default_fill_solid, default_fill_contiguous; apply draw_iter_spec.
+Qed.
+
+Theorem render_writes_default bb cs p :
+  render bb DefaultOnly cs p = last_write p (writes_all bb DefaultOnly cs).
+Proof.
+  unfold render, paint_all, writes_all.
+  assert (forall m, fold_left (fun m c => paint bb DefaultOnly c m) cs m p =
+                    match last_write p (flat_map (writes bb DefaultOnly) cs) with Some col => Some col | None => m p end) as H.
+  { induction cs as [|c cs IH]; intros m; cbn [fold_left flat_map last_write]; [reflexivity|].
+    rewrite IH, last_write_app. destruct (last_write p (flat_map _ cs)); [reflexivity|]. apply paint_writes_default. }
+  rewrite H. destruct (last_write p _); reflexivity.
+Qed.
+
 Theorem paint_all_writes bb k cs :
   rect_fits bb -> Forall call_fits cs ->
   forall m p, paint_all bb k cs m p =
